@@ -10,6 +10,8 @@ for log in sys.argv[1:]:
         m = re.match(r"== seed(3?)-(C\d+) mutant(\d+)", line)
         if m:   # wave 3 ("seed3-") mutants 1,2 are filed as m3,m4
             cur = (m.group(2), str(int(m.group(3)) + (2 if m.group(1) else 0))); continue
+        if line.startswith("== "):   # a revert (second pass) or another header: not a seeded change
+            cur = None; continue
         m = re.match(r"(C\d+): (CAUGHT|MISSED|ERROR)(.*)", line)
         if m and cur:
             tail = m.group(3)
